@@ -284,6 +284,18 @@ impl Rx {
         }
     }
 
+    pub fn with_monitor(spec: &RxSpec, mon: Rc<Monitor>) -> Rx {
+        let mr = MultiReceiver::new(mon.clone(), Some(spec.config()), false);
+        Rx {
+            mr,
+            mon,
+            endpoint: UDPEndpoint::new(None, "224.0.0.1".to_string(), 3400),
+            cleanup_each_push: spec.cleanup_each_push,
+            push_errors: 0,
+            push_ok: 0,
+        }
+    }
+
     pub fn push(&mut self, bytes: &[u8], now: SystemTime) -> bool {
         let r = self.mr.push(&self.endpoint.clone(), bytes, now);
         if self.cleanup_each_push {
